@@ -34,3 +34,4 @@ open PebblesVerif
 #print axioms C01_flat_nested_instance_middle
 #print axioms C01_find_selection_level_first
 #print axioms C01_find_selection_depth_first_shadowed
+#print axioms C01_planner_value_semantics
